@@ -75,6 +75,25 @@ def run(tier, seed, work, replay):
             cls = res.classify(sig_m, detail, known)
             if cls == "violation":
                 res.sample({"deviation": d, "event": ev})
+    # flows (KMCertFlow): the presented session is one obtained from the daemon's own endpoints
+    import tablecheck
+    sub, fevs = tablecheck.run_table(
+        PROP, tier, seed, work, "KMCertFlow", ["MC_KMCertFlow.cfg"], "Gen_KMCertFlow", "Gen_KMCertFlow.cfg", "Trace_KMCertFlow",
+        "Trace_KMCertFlow.cfg", lambda ev: {"via": ev["case"]["via"], "webui": ev["case"]["webui"], "start": sorted(ev["case"]["start"]),
+                                            "cfg": sorted(ev["case"]["cfg"])},
+        lambda e: (tuple(e["case"]["cfg"]), e["case"]["webui"], tuple(e["case"]["start"]), e["case"]["via"], e["out"]["issued"]),
+        harness_prop="C01flow", binary=binary)
+    for sg, path in sub.violations:
+        res.violations.append((sg, path))
+    for k, v in sub.known_hits.items():
+        res.known_hits.setdefault(k, [v[0], 0])[1] += v[1]
+    res.notes.extend(sub.notes)
+    for k in ("states", "transitions", "traces_validated_against_impl", "evaluations"):
+        cov[k] = cov.get(k, 0) + sub.cov.get(k, 0)
+    cov["flows"] = {"run": len(fevs), "issued": sum(1 for e in fevs if e["out"]["issued"]),
+                    "escalation_cookie_obtained": sum(1 for e in fevs if e["out"]["note"])}
+    if not cov["flows"]["issued"] or not cov["flows"]["escalation_cookie_obtained"]:
+        raise E.Inconclusive("flow driver is dead: %s" % cov["flows"])
     res.assumptions = ["TLC 1.8 and its Json/CSV modules", "go-jose / x509 / ssh parsers used to project responses",
                        "the harness's credential factory mints what the spec's credential shapes say",
                        "password backend fake defines 'the backend accepts'"]
